@@ -67,7 +67,7 @@ func whose(b []byte) string {
 
 func runConc(c *Case) error {
 	sp := c.Conc
-	root, e := os.MkdirTemp("/tmp", "c14-")
+	root, e := os.MkdirTemp("", "c14-")
 	if e != nil {
 		return fmt.Errorf("harness: %v", e)
 	}
